@@ -76,6 +76,38 @@ where
         let b = json_data.b;
         let cones = json_data.cones;
         let settings = settings.unwrap_or(json_data.settings);
+
+        // A file can be valid JSON and still not describe a well-formed problem
+        // (matrix arrays of inconsistent length, out-of-range indices, dimensions
+        // that do not match, unknown option strings).  Report those as errors here
+        // rather than panicking inside the solver constructor.
+        let invalid = |msg: String| io::Error::new(io::ErrorKind::InvalidData, msg);
+        P.check_format()
+            .map_err(|e| invalid(format!("invalid matrix P: {}", e)))?;
+        A.check_format()
+            .map_err(|e| invalid(format!("invalid matrix A: {}", e)))?;
+        settings.validate().map_err(invalid)?;
+        for cone in cones.iter() {
+            // same test as the assertions in GenPowerCone::new
+            if let SupportedConeT::GenPowerConeT(α, _) = cone {
+                let tol = T::epsilon() * α.len().as_T() * (0.5).as_T();
+                if !α.iter().all(|r| *r > T::zero()) || !((T::one() - α.sum()).abs() < tol) {
+                    return Err(invalid("invalid GenPowerConeT exponents".to_string()));
+                }
+            }
+        }
+        let p = cones
+            .iter()
+            .try_fold(0usize, |acc, cone| acc.checked_add(cone.nvars()));
+        if !P.is_square()
+            || P.ncols() != q.len()
+            || A.ncols() != q.len()
+            || A.nrows() != b.len()
+            || p != Some(b.len())
+        {
+            return Err(invalid("inconsistent problem dimensions".to_string()));
+        }
+
         let solver = Self::new(&P, &q, &A, &b, &cones, settings);
 
         Ok(solver)
